@@ -30,7 +30,8 @@ Definition fmedian (l : list float) : float :=
   else nth (n / 2) s 0.
 
 (* one repeat: returns (eigenvalue estimates appended to results, record of per-iteration eigenvalues).
-   state: last eigenvector, last eigenvalue (None at the first iteration), queue (most recent first), record (reversed) *)
+   state: last eigenvector, last eigenvalue (None at the first iteration), queue (in the order of the code: oldest first),
+   record (reversed) *)
 Fixpoint power_loop (fuel : nat) (acc : accessor) (tol : float) (maxit : nat)
          (x : list float) (last : option float) (queue : list float) (record : list float)
   : option (list float * list float) :=
@@ -45,7 +46,7 @@ Fixpoint power_loop (fuel : nat) (acc : accessor) (tol : float) (maxit : nat)
       | None => power_loop f acc tol maxit ev' (Some lam) queue record'
       | Some l0 =>
           let rel := if 0 <? l0 then abs (lam - l0) / l0 else 0 in
-          let queue' := lam :: queue in
+          let queue' := queue ++ [lam] in
           let r1 := if rel <? tol then [lam] else [] in
           let over := Nat.ltb maxit (length queue') in
           let r2 := if over then [fmedian queue'] else [] in
